@@ -70,8 +70,75 @@ func run(memoise bool, seed uint64, pol int) (simrt.Result, int) {
 	return res, raceErrors() - before
 }
 
+// condScenario: two consumers wait on a sync.Cond for items a producer appends;
+// also a channel hand-over through the Recv/Send shims.
+func condScenario(seed uint64, pol int, withChannel bool) (simrt.Result, int) {
+	var m sync.Mutex
+	c := sync.NewCond(&m)
+	var items []int
+	got := 0
+	ch := make(chan int)
+	consumer := func() {
+		for i := 0; i < 3; i++ {
+			simrt.Yield(11)
+			simrt.Lock(m.TryLock, m.Lock)
+			for len(items) == 0 {
+				simrt.Yield(12)
+				simrt.CondWait(c)
+			}
+			got += items[0]
+			items = items[1:]
+			simrt.Yield(13)
+			m.Unlock()
+		}
+		if withChannel {
+			simrt.Send(ch, 1)
+		}
+	}
+	producer := func() {
+		for i := 1; i <= 6; i++ {
+			simrt.Yield(14)
+			simrt.Lock(m.TryLock, m.Lock)
+			items = append(items, i)
+			simrt.Yield(15)
+			if i%2 == 0 {
+				simrt.CondBroadcast(c)
+			} else {
+				simrt.CondSignal(c)
+			}
+			m.Unlock()
+		}
+		if withChannel {
+			got += simrt.Recv(ch) + simrt.Recv(ch)
+		}
+	}
+	cfg := simrt.Config{Policy: pol, PThresh: ^uint64(0) / 2, SchedSeed: seed, Prio: []int{1, 2, 0}, PCTPoints: []uint64{5, 20}}
+	res := simrt.Run(cfg, []func(){producer, consumer, consumer})
+	return res, got
+}
+
 func main() {
 	fail := false
+	for _, pol := range []int{simrt.PolicyNone, simrt.PolicyBernoulli, simrt.PolicyPCT} {
+		for seed := uint64(1); seed <= 20; seed++ {
+			// sync.Cond through the shim: functional result and exact determinism
+			r1, got := condScenario(seed, pol, false)
+			r2, got2 := condScenario(seed, pol, false)
+			if got != 21 || got2 != 21 || r1.Deadlock || r1.FP != r2.FP {
+				fmt.Println("FAIL: cond scenario", pol, seed, got, got2, r1.Deadlock, r1.FP, r2.FP)
+				fail = true
+			}
+			// plus an unbuffered task-to-task hand-over: the blocking send is done by
+			// a helper goroutine whose timing is real, so only the functional result
+			// is required to be stable (the number of polling rounds is not)
+			r3, got3 := condScenario(seed, pol, true)
+			if got3 != 23 || r3.Deadlock {
+				fmt.Println("FAIL: cond+channel scenario", pol, seed, got3, r3.Deadlock)
+				fail = true
+			}
+		}
+	}
+	fmt.Println("cond/channel scenarios done")
 	for _, pol := range []int{simrt.PolicyNone, simrt.PolicyBernoulli, simrt.PolicyPCT} {
 		counter = 0
 		r1, races := run(false, 42, pol)
